@@ -4,7 +4,7 @@ import ast
 from ..affine import Env, Form, Lit, NonAffine, literal
 from ..heap import Analysis, fmt
 from ..trace import map_desc
-from ..model import norm, walk_own
+from ..model import norm, walk_own, walk_with_nested_exprs
 from ..rules_own import transform_analysis
 
 CL = "aw_transform/classify.py"
@@ -108,6 +108,10 @@ def url_keys(prog, rep):
             ast.copy_location(ie, i_)
             ast.fix_missing_locations(ie)
             got["$domain"] = (deep(ie, fi, stop=(ev,)), a_, ev)
+    # attributes of a parse result that raise for URLs a browser shows: .port (ValueError for a non-numeric or out-of-range port)
+    for x_ in walk_with_nested_exprs(fi.node):
+        if isinstance(x_, ast.Attribute) and x_.attr == "port" and isinstance(x_.ctx, ast.Load):
+            rep.violation("URL-KEYS", fi.short, f"`{norm(x_)[:40]}`", f"`{norm(x_)}` is evaluated for every event with a url: urlparse(...).port raises ValueError for a port that is not a number in 0..65535 (`http://localhost:56000000/`), so split_url_events aborts in the middle of the list instead of annotating the events", fi.loc(x_))
     for k, attr in want.items():
         if k not in got:
             rep.violation("URL-KEYS", fi.short, k, f"{k} is never written", fi.loc())
